@@ -97,6 +97,8 @@ var items = []item{
 	{"transport/ax25/agwpe", "kindOutstandingFramesForConn", "agw_kindOutstandingFramesForConn", "N"},
 	// ardop
 	{"transport/ardop", "polynomial", "ardop_polynomial", "N"},
+	{"transport/ardop", "parseCtrlMsg", "ardop_ctrl_cases", "switchcases"},
+	{"transport/ardop", "stateMap", "ardop_state_map", "strmap"},
 }
 
 type stubImporter struct{ fallback types.Importer }
@@ -117,6 +119,7 @@ type pkgInfo struct {
 	pkg  *types.Package
 	info *types.Info
 	vars map[string]ast.Expr // package-level var name -> initialiser
+	files []*ast.File
 }
 
 func load(root, dir string) (*pkgInfo, error) {
@@ -143,7 +146,7 @@ func load(root, dir string) (*pkgInfo, error) {
 		Error:    func(error) {},
 	}
 	pkg, _ := conf.Check(dir, fset, files, info)
-	pi := &pkgInfo{pkg: pkg, info: info, vars: map[string]ast.Expr{}}
+	pi := &pkgInfo{pkg: pkg, info: info, vars: map[string]ast.Expr{}, files: files}
 	for _, f := range files {
 		for _, d := range f.Decls {
 			gd, ok := d.(*ast.GenDecl)
@@ -280,6 +283,65 @@ func main() {
 				continue
 			}
 			fmt.Fprintf(&b, "Definition %s : list N := %s. (* %q *)\n", it.coq, strBytes(constant.StringVal(v)), constant.StringVal(v))
+		case "switchcases":
+			// the clauses of the first `switch` on a value in the function: for each clause the
+			// string constants it lists (the default clause has none)
+			var fn *ast.FuncDecl
+			for _, f := range pi.files {
+				for _, d := range f.Decls {
+					if fd, ok := d.(*ast.FuncDecl); ok && fd.Name.Name == it.goName && fd.Recv == nil {
+						fn = fd
+					}
+				}
+			}
+			if fn == nil {
+				errs = append(errs, it.pkgDir+": function "+it.goName+" not found")
+				continue
+			}
+			var sw *ast.SwitchStmt
+			ast.Inspect(fn.Body, func(n ast.Node) bool {
+				if s, ok := n.(*ast.SwitchStmt); ok && sw == nil && s.Tag != nil {
+					sw = s
+				}
+				return sw == nil
+			})
+			if sw == nil {
+				errs = append(errs, it.pkgDir+": no switch in "+it.goName)
+				continue
+			}
+			var clauses []string
+			for _, st := range sw.Body.List {
+				cc := st.(*ast.CaseClause)
+				var names []string
+				for _, e := range cc.List {
+					tv, ok := pi.info.Types[e]
+					if !ok || tv.Value == nil || tv.Value.Kind() != constant.String {
+						errs = append(errs, fmt.Sprintf("%s: %s: case expression is not a string constant", it.pkgDir, it.goName))
+						continue
+					}
+					names = append(names, strBytes(constant.StringVal(tv.Value)))
+				}
+				clauses = append(clauses, "["+strings.Join(names, ";\n     ")+"]")
+			}
+			fmt.Fprintf(&b, "Definition %s : list (list (list N)) :=\n  [%s].\n", it.coq, strings.Join(clauses, ";\n   "))
+		case "strmap":
+			e, ok := pi.vars[it.goName]
+			cl, ok2 := e.(*ast.CompositeLit)
+			if !ok || !ok2 {
+				errs = append(errs, it.pkgDir+": "+it.goName+" is not a composite literal")
+				continue
+			}
+			var ents []string
+			for _, el := range cl.Elts {
+				kv := el.(*ast.KeyValueExpr)
+				k, v := pi.info.Types[kv.Key], pi.info.Types[kv.Value]
+				if k.Value == nil || v.Value == nil {
+					errs = append(errs, it.pkgDir+": "+it.goName+": non-constant entry")
+					continue
+				}
+				ents = append(ents, fmt.Sprintf("(%s, %s)", strBytes(constant.StringVal(k.Value)), v.Value.ExactString()))
+			}
+			fmt.Fprintf(&b, "Definition %s : list (list N * N) :=\n  [%s].\n", it.coq, strings.Join(ents, ";\n   "))
 		case "table":
 			vals, err := tableVals(pi, it.goName)
 			if err != nil {
